@@ -124,7 +124,7 @@ def _coq_sexp(x):
     return "L [" + "; ".join(_coq_sexp(y) for y in x) + "]"
 
 
-def kernel_crosscheck(model_name, pairs, n, tmp):
+def kernel_crosscheck(model_name, pairs, n, tmp, entry=None):
     """Re-evaluates a sample of the cases INSIDE Coq (vm_compute) and lets the kernel compare with what the extracted
     OCaml driver answered: Example k : run_Cxx input = driver_output. Proof. vm_compute. reflexivity. Qed.
     -> (number checked, error text or None)"""
@@ -138,7 +138,7 @@ def kernel_crosscheck(model_name, pairs, n, tmp):
     imports = re.search(r"From Clikit Require Import ([^.]*(?:\.[A-Za-z][^.]*)*)\.\n", open(os.path.join(COQ, "theories", "Extract", "Extract.v")).read()).group(1)
     lines = ["From Clikit Require Import %s." % imports]
     for k, (i, o) in enumerate(sample):
-        lines.append("Example x%d : run_%s (%s) = (%s).\nProof. vm_compute. reflexivity. Qed." % (k, model_name, _coq_sexp(from_wire(i)), _coq_sexp(from_wire(o))))
+        lines.append("Example x%d : %s (%s) = (%s).\nProof. vm_compute. reflexivity. Qed." % (k, entry or ("run_" + model_name), _coq_sexp(from_wire(i)), _coq_sexp(from_wire(o))))
     path = os.path.join(tmp, "crosscheck.v")
     with open(path, "w") as f:
         f.write("\n".join(lines) + "\n")
@@ -503,7 +503,7 @@ def run_check(prop, mod, tier, seed, tmp, replay, t_start, log):
     # --- the extracted driver against the kernel's own evaluator; the independent checker (thorough)
     xc_n, xc_err = 0, None
     if ok_build and getattr(ev, "pairs", None):
-        xc_n, xc_err = kernel_crosscheck(mod.MODEL, ev.pairs, 200 if tier == "thorough" else 30, tmp)
+        xc_n, xc_err = kernel_crosscheck(mod.MODEL, ev.pairs, 200 if tier == "thorough" else 30, tmp, getattr(mod, "MODEL_ENTRY", None))
         if xc_err and not violations:
             path = write_replay(prop, "extraction", tier, seed, None,
                                 {"broken": "extraction/driver: a case evaluated by vm_compute inside Coq differs from the extracted OCaml driver's answer",
